@@ -15,6 +15,7 @@ import (
 	"path/filepath"
 	"sort"
 	"strings"
+	"sync/atomic"
 	"syscall"
 	"time"
 
@@ -113,6 +114,7 @@ func Build(variant string, extraArgs ...string) (*Bins, error) {
 		return nil, err
 	}
 	defer unlock()
+	markInUse(th)
 	if _, err := os.Stat(filepath.Join(dir, ".ok")); err == nil {
 		return &Bins{Dir: dir, TreeHash: th}, nil
 	}
@@ -154,7 +156,36 @@ func GenGo(mcDir string) (string, error) {
 	return bin, nil
 }
 
-// keep the two most recent tree hashes.
+// markInUse takes a shared lock on <treehash>.use for the life of the process: pruneCache leaves such trees alone.
+func markInUse(th string) {
+	f, err := os.OpenFile(filepath.Join(Home(), "cache", th+".use"), os.O_CREATE|os.O_RDWR, 0o644)
+	if err != nil {
+		return
+	}
+	if syscall.Flock(int(f.Fd()), syscall.LOCK_SH) != nil {
+		f.Close()
+		return
+	}
+	inUse = append(inUse, f) // keep the descriptor (and the lock) open
+}
+
+var inUse []*os.File
+
+// treeInUse reports whether another process holds the use lock of the tree.
+func treeInUse(th string) bool {
+	f, err := os.OpenFile(filepath.Join(Home(), "cache", th+".use"), os.O_CREATE|os.O_RDWR, 0o644)
+	if err != nil {
+		return false
+	}
+	defer f.Close()
+	if err := syscall.Flock(int(f.Fd()), syscall.LOCK_EX|syscall.LOCK_NB); err != nil {
+		return true
+	}
+	syscall.Flock(int(f.Fd()), syscall.LOCK_UN)
+	return false
+}
+
+// keep the two most recent tree hashes (and every tree a running check is using).
 func pruneCache(keep string) {
 	root := filepath.Join(Home(), "cache")
 	ents, err := os.ReadDir(root)
@@ -178,9 +209,10 @@ func pruneCache(keep string) {
 	}
 	sort.Slice(ds, func(i, j int) bool { return ds[i].t.After(ds[j].t) })
 	for i, d := range ds {
-		if i >= 1 {
+		if i >= 1 && !treeInUse(d.name) {
 			os.RemoveAll(filepath.Join(root, d.name))
 			os.Remove(filepath.Join(root, d.name+".lock"))
+			os.Remove(filepath.Join(root, d.name+".use"))
 		}
 	}
 }
@@ -254,8 +286,15 @@ func Run(bin string, req *pluginpb.CodeGeneratorRequest, env ...string) *Result 
 	return RunRaw(bin, in, env...)
 }
 
+// Fault holds the first harness-side failure to run a plugin at all (binary missing or not executable): such a run
+// says nothing about the plugin, so the check must end as a check error, not with a verdict.
+var Fault atomic.Value
+
 func RunRaw(bin string, in []byte, env ...string) *Result {
 	res := &Result{Plugin: filepath.Base(bin)}
+	if _, err := os.Stat(bin); err != nil {
+		Fault.CompareAndSwap(nil, "plugin binary missing: "+err.Error())
+	}
 	script := fmt.Sprintf("ulimit -v %d; exec timeout -s KILL %d %q", MemKB, TimeoutSec, bin)
 	cmd := exec.Command("bash", "-c", script)
 	cmd.Stdin = bytes.NewReader(in)
@@ -279,6 +318,9 @@ func RunRaw(bin string, in []byte, env ...string) *Result {
 				}
 			} else {
 				res.ExitCode = ws.ExitStatus()
+				if (res.ExitCode == 126 || res.ExitCode == 127) && strings.Contains(res.Stderr, "failed to run command") {
+					Fault.CompareAndSwap(nil, strings.TrimSpace(res.Stderr))
+				}
 				if res.ExitCode == 137 || res.ExitCode == 124 {
 					res.TimedOut = res.Wall >= time.Duration(TimeoutSec)*time.Second-time.Second
 					if !res.TimedOut {
